@@ -37,6 +37,8 @@ theorem htlc_translated_pinned : Irismod.Gen.PureHtlc.translated =
      "IncOutgoing_guard_1(supply_CurrentSupply,supply_OutgoingSupply,coin)",
      "DecOutgoing_supply_OutgoingSupply_1(supply_OutgoingSupply,coin)",
      "DecOutgoing_guard_1(supply_OutgoingSupply,coin)",
+     "createHTLT_call_IncrementIncomingAssetSupply_1_arg1(amount_0)",
+     "createHTLT_call_IncrementOutgoingAssetSupply_1_arg1(amount_0)",
      "createHTLT_guard_1(read_len_amount)",
      "createHTLT_guard_2(amount_0,asset_MinSwapAmount,asset_MaxSwapAmount)",
      "createHTLT_guard_3(timestamp,pastTimestampLimit,futureTimestampLimit)",
@@ -45,6 +47,12 @@ theorem htlc_translated_pinned : Irismod.Gen.PureHtlc.translated =
      "createHTLT_guard_6(read_to_Equals_deputyAddress)",
      "createHTLT_guard_7(timeLock,asset_MinBlockLock,asset_MaxBlockLock)",
      "createHTLT_guard_8(amount_0,asset_FixedFee,asset_MinSwapAmount)",
+     "claimHTLT_call_DecrementIncomingAssetSupply_1_arg1(htlc_Amount_0)",
+     "claimHTLT_call_IncrementCurrentAssetSupply_1_arg1(htlc_Amount_0)",
+     "claimHTLT_call_DecrementOutgoingAssetSupply_1_arg1(htlc_Amount_0)",
+     "claimHTLT_call_DecrementCurrentAssetSupply_1_arg1(htlc_Amount_0)",
+     "refundHTLT_call_DecrementIncomingAssetSupply_1_arg1(amount_0)",
+     "refundHTLT_call_DecrementOutgoingAssetSupply_1_arg1(amount_0)",
      "UpdateWindow_newTimeElapsed_1(supply_TimeElapsed,timeElapsed)",
      "UpdateWindow_supply_TimeElapsed_1(newTimeElapsed)",
      "UpdateWindow_supply_TimeElapsed_2()",
@@ -184,5 +192,20 @@ theorem createHTLT_guards_eq_model (d : String) (n ts timeLock time : Nat) (a : 
     by_cases h1 : timeLock < a.minLock <;> by_cases h2 : a.maxLock < timeLock <;> simp [h1, h2]
   · unfold createHTLT_guard_8
     simp only [Int_Add_nat, hfee, if_true, obind_some, Int_LT, Int.ofNat_lt]
+
+/-- which counters a create, a claim and a refund move, in which order, and by which amount (the contract's single
+coin): `htlc_translated_pinned` lists the calls in source order — create: incoming / outgoing +; claim of an incoming
+transfer: incoming − then current +; claim of an outgoing one: outgoing − then current −; refund: incoming − /
+outgoing − — and each is handed the coin unchanged -/
+theorem supply_calls_pass_the_amount (c : GoSem.Coin) :
+    createHTLT_call_IncrementIncomingAssetSupply_1_arg1 c = some c ∧
+    createHTLT_call_IncrementOutgoingAssetSupply_1_arg1 c = some c ∧
+    claimHTLT_call_DecrementIncomingAssetSupply_1_arg1 c = some c ∧
+    claimHTLT_call_IncrementCurrentAssetSupply_1_arg1 c = some c ∧
+    claimHTLT_call_DecrementOutgoingAssetSupply_1_arg1 c = some c ∧
+    claimHTLT_call_DecrementCurrentAssetSupply_1_arg1 c = some c ∧
+    refundHTLT_call_DecrementIncomingAssetSupply_1_arg1 c = some c ∧
+    refundHTLT_call_DecrementOutgoingAssetSupply_1_arg1 c = some c :=
+  ⟨rfl, rfl, rfl, rfl, rfl, rfl, rfl, rfl⟩
 
 end Irismod.Props.Tie
